@@ -22,6 +22,8 @@
 #include <kernel/lafem/dense_vector_blocked.hpp>
 #include <kernel/lafem/tuple_vector.hpp>
 #include <kernel/lafem/tuple_mirror.hpp>
+#include <kernel/lafem/power_vector.hpp>
+#include <kernel/lafem/power_mirror.hpp>
 #include <kernel/solver/pcg.hpp>
 #include <kernel/solver/richardson.hpp>
 #include <kernel/solver/jacobi_precond.hpp>
@@ -399,6 +401,76 @@ namespace C13
       out.put("x_tup3_s1_diff", gate_3.max(tc.max_abs_element()));
     }
 
+    // more composite gates: PowerVector<scalar, 3> with PowerMirror, and the nested
+    // TupleVector<PowerVector<blocked-2, 2>, TupleVector<scalar, blocked-3>, scalar> with the matching nested mirror
+    {
+      typedef LAFEM::PowerVector<LocalSystemVector, 3> PVec;
+      typedef LAFEM::PowerMirror<MirrorType, 3> PMir;
+      Global::Gate<PVec, PMir> gate_p(comm);
+      const auto ranks = gate.get_ranks();
+      for(std::size_t k(0); k < ranks.size(); ++k)
+        gate_p.push(ranks[k], PMir(gate.get_mirrors()[k].clone()));
+      gate_p.compile(PVec(nloc));
+      LocalSystemVector y_type0(nloc);
+      mat_trap.local().apply(y_type0, vx.local());
+      PVec pv(nloc), pw(nloc);
+      pv.template at<0>().copy(b_type0); pv.template at<1>().copy(y_type0); pv.template at<2>().copy(b_type0);
+      pv.template at<2>().axpy(y_type0, 2.0);
+      pw.template at<0>().copy(vw1.local()); pw.template at<1>().copy(vw2.local()); pw.template at<2>().copy(vx.local());
+      gate_p.sync_0(pv);
+      out.put("x_pow3_dot", gate_p.dot(pv, pw));
+      out.put("x_pow3_async_dot", gate_p.dot_async(pv, pw).wait());
+      out.put("x_pow3_ndofs", gate_p.get_num_global_dofs());
+      PVec pc = pw.clone();
+      gate_p.sync_1(pc);
+      pc.axpy(pw, -1.0);
+      out.put("x_pow3_s1_diff", gate_p.max(pc.max_abs_element()));
+
+      typedef LAFEM::DenseVectorBlocked<DataType, IndexType, 2> B2;
+      typedef LAFEM::DenseVectorBlocked<DataType, IndexType, 3> B3;
+      typedef LAFEM::PowerVector<B2, 2> NP;
+      typedef LAFEM::TupleVector<LocalSystemVector, B3> NT;
+      typedef LAFEM::TupleVector<NP, NT, LocalSystemVector> NVec;
+      typedef LAFEM::TupleMirror<LAFEM::PowerMirror<MirrorType, 2>, LAFEM::TupleMirror<MirrorType, MirrorType>, MirrorType> NMir;
+      Global::Gate<NVec, NMir> gate_n(comm);
+      for(std::size_t k(0); k < ranks.size(); ++k)
+      {
+        const auto& mk = gate.get_mirrors()[k];
+        gate_n.push(ranks[k], NMir(LAFEM::PowerMirror<MirrorType, 2>(mk.clone()),
+          LAFEM::TupleMirror<MirrorType, MirrorType>(mk.clone(), mk.clone()), mk.clone()));
+      }
+      auto mkn = [&]() { NP np_(nloc); return NVec(std::move(np_), NT(LocalSystemVector(nloc), B3(nloc)), LocalSystemVector(nloc)); };
+      gate_n.compile(mkn());
+      auto filln = [&](NVec& t, const LocalSystemVector& a, const LocalSystemVector& b, DataType fac)
+      {
+        auto* p0 = t.template at<0>().template at<0>().elements();
+        auto* p1 = t.template at<0>().template at<1>().elements();
+        DataType* q0 = t.template at<1>().template at<0>().elements();
+        auto* q1 = t.template at<1>().template at<1>().elements();
+        DataType* r0 = t.template at<2>().elements();
+        for(Index i(0); i < nloc; ++i)
+        {
+          const DataType u = a.elements()[i], v = b.elements()[i];
+          p0[i][0] = u; p0[i][1] = fac * v;
+          p1[i][0] = v; p1[i][1] = u + v;
+          q0[i] = fac * u;
+          q1[i][0] = v; q1[i][1] = u; q1[i][2] = 2.0 * v;
+          r0[i] = u + fac * v;
+        }
+      };
+      NVec nv = mkn(), nw = mkn();
+      filln(nv, b_type0, y_type0, -3.0);
+      filln(nw, vw1.local(), vw2.local(), 1.0);
+      gate_n.sync_0(nv);
+      out.put("x_nest_dot", gate_n.dot(nv, nw));
+      out.put("x_nest_async_dot", gate_n.dot_async(nv, nw).wait());
+      out.put("x_nest_ndofs", gate_n.get_num_global_dofs());
+      NVec nc = nw.clone();
+      gate_n.sync_1(nc);
+      nc.axpy(nw, -1.0);
+      out.put("x_nest_s1_diff", gate_n.max(nc.max_abs_element()));
+    }
+
     // Muxer::join / split (+ join_send / split_recv) for the three-field tuple on every layer change:
     // the muxer is built by Control::Asm::build_muxer_tuple from a blocked and two scalar muxers
     {
@@ -632,6 +704,49 @@ namespace C13
       vec_rhs.format();
       Assembly::Common::LaplaceFunctional<decltype(func_sin)> force_sin(func_sin);
       Assembly::assemble_linear_functional_vector(the_domain_level.domain_asm, vec_rhs.local(), force_sin, the_domain_level.space, cubature);
+      // float clause of C13 with a stated bound (theorem C13.sync0_float_bound / flSum_bound): at a DOF shared by k ranks the
+      // synchronised value differs from the exact sum of the k contributions by at most ((1+u)^(k-1) - 1) * sum|contributions|
+      // for every arrival order (u = 2^-53).  Exact reference: the same sync_0 in long double; sum|c|: sync_0 of |c|.
+      {
+        typedef LAFEM::DenseVector<long double, IndexType> LVec;
+        typedef LAFEM::VectorMirror<long double, IndexType> LMir;
+        Global::Gate<LVec, LMir> gate_ld;
+        gate_ld.convert(gate);
+        LVec r_ld(nloc);
+        LocalSystemVector r_abs(nloc);
+        for(Index i(0); i < nloc; ++i)
+        {
+          r_ld.elements()[i] = (long double)vec_rhs.local().elements()[i];
+          r_abs.elements()[i] = Math::abs(vec_rhs.local().elements()[i]);
+        }
+        gate_ld.sync_0(r_ld);
+        gate.sync_0(r_abs);
+        GlobalSystemVector r_dbl = vec_rhs.clone();
+        r_dbl.sync_0();
+        const double u = 1.1102230246251565e-16;
+        double worst = 0.0;
+        Index n_multi = 0u;
+        for(Index i(0); i < nloc; ++i)
+        {
+          const double k = std::floor(1.0 / gate.get_freqs().elements()[i] + 0.5);
+          const double err = double(std::fabs((long double)r_dbl.local().elements()[i] - r_ld.elements()[i]));
+          if(k > 1.5)
+          {
+            ++n_multi;
+            const double bound = std::expm1((k - 1.0) * std::log1p(u)) * r_abs.elements()[i];   // ((1+u)^(k-1) - 1) * sum|c|
+            if(std::getenv("C13_DEBUG") && !(err <= bound)) std::cerr << "DBG2 rank " << comm.rank() << " i=" << i << " k=" << k << " err=" << err << " bound=" << bound << std::endl;
+            worst = Math::max(worst, (bound > 0.0) ? err / bound : (err > 0.0 ? 1E+99 : 0.0));
+          }
+          else if(err > 1E-18 * r_abs.elements()[i])   // a DOF of one rank only is not touched (long double conversion is exact)
+          {
+            if(std::getenv("C13_DEBUG")) std::cerr << "DBG rank " << comm.rank() << " i=" << i << " k=" << k << " err=" << err << " abs=" << r_abs.elements()[i] << " dbl=" << r_dbl.local().elements()[i] << " ld=" << double(r_ld.elements()[i]) << " loc=" << vec_rhs.local().elements()[i] << std::endl;
+            worst = 1E+99;
+          }
+        }
+        double w = 0.0;
+        comm.allreduce(&worst, &w, std::size_t(1), Dist::op_max);
+        out.put("b_sync_float_ratio", w);
+      }
       vec_rhs.sync_0();
       the_system_level.filter_sys.filter_sol(vec_sol);
       the_system_level.filter_sys.filter_rhs(vec_rhs);
